@@ -359,6 +359,11 @@ def call(px, st, name, t, args, fid, fn):
         if lohi:
             return [(st, ('pred', 'inrange', lohi[0], lohi[1], x))]
         return [(st, pure('range_contains', (rng, x)))]
+    m = re.search(r'ops::RangeInclusive::<Idx>::(start|end)$', n)
+    if m:
+        lohi = range_bounds(px.deref_value(st, args[0]))
+        if lohi:
+            return [(st, ('cref', INT(lohi[0] if m.group(1) == 'start' else lohi[1])))]
     if n.endswith('ops::Range::<Idx>::contains'):
         rng = px.deref_value(st, args[0])
         x = px.deref_value(st, args[1])
@@ -551,7 +556,7 @@ def totality(name):
         return 'total'
     if re.search(r'(as std::ops::Try>::branch$|::from_residual$|::map_err$|::ok$|::map$|::or_else$|::or$|::map_or$|::map_or_else$|::unwrap_or$|::unwrap_or_default$|'
                  r'::as_mut$|::as_deref_mut$|::unwrap_or_else$|::transpose$|::and_then$|::ok_or$|::ok_or_else$|::filter$|::then_some$|::then$|::is_some_and$|::is_ok_and$|::try_for_each$|::try_fold$|::replace$|::take$|::flatten$|::find$|::find_map$|::position$|::zip$|::copied$|::cloned$|::peek$|::next$|::any$|::all$|::collect$|'
-                 r'RangeInclusive::<Idx>::(contains|new)$|Range::<Idx>::contains$|::serialize_str$|::deserialize_str$|::deserialize_string$|::deserialize_any$|'
+                 r'RangeInclusive::<Idx>::(contains|new|start|end|is_empty|into_inner)$|Range::<Idx>::(contains|is_empty)$|::serialize_str$|::deserialize_str$|::deserialize_string$|::deserialize_any$|'
                  r'::custom$|::into_boxed_slice$|::iter$|::get$|::first$|::last$|::fold$|::for_each$|::next_back$|::size_hint$|::drop$|::write_char$)', n):
         return 'total'
     if TOTAL_EXTRA_RE.search(n):
